@@ -15,6 +15,56 @@ ENC = {"utf-8": "Utf8", "latin-1": "Latin1", "ascii": "Ascii"}
 HIDE = {"none": "HNone", "false": "HFalse", "true": "HTrue", "out": "HOut", "stdout": "HStdout",
         "err": "HErr", "stderr": "HStderr", "both": "HBoth"}
 
+# what the mirror stream objects advertise as .encoding (None: no such attribute)
+MENC = {None: "MNone", "utf-8": "MUtf8", "ascii": "MAscii", "latin-1": "MLatin1", "cp1252": "MCp1252"}
+NARROW = ("ascii", "latin-1", "cp1252")
+
+
+def hidden_streams(case):
+    """(stdout hidden, stderr hidden) by the documented table"""
+    h = case.get("hide", "none")
+    a = bool(case.get("async"))
+    ho = (a or h in ("out", "stdout", "both", "true")) and not case.get("out_given")
+    he = (a or h in ("err", "stderr", "both", "true")) and not case.get("err_given")
+    return ho, he
+
+
+def unrepresentable(s, enc):
+    """some character of s cannot be encoded in enc"""
+    try:
+        s.encode(enc)
+        return False
+    except UnicodeEncodeError:
+        return True
+
+
+def mirror_class(case, obs):
+    """how far the case exercises the mirror stream's encoding attribute: the strongest of the two streams.
+    narrow!  = a shown stream advertises ascii/latin-1/cp1252 and the command's text has a character that
+               encoding cannot represent (the dimension bites);  narrow = narrow encoding, all representable;
+    utf-8 / plain (no .encoding) likewise; none = nothing was forwarded (hidden or empty).  +W: that stream
+    is a real TextIOWrapper(errors=backslashreplace)"""
+    rank = {"none": 0, "plain": 1, "utf-8": 2, "narrow": 3, "narrow!": 4}
+    best = "none"
+    ho, he = hidden_streams(case)
+    for who, hid, txt in (("out", ho, obs.get("stdout") or ""), ("err", he, obs.get("stderr") or "")):
+        if hid or not txt:
+            continue
+        m = case.get(who + "_menc")
+        if m is None:
+            k = "plain"
+        elif m == "utf-8":
+            k = "utf-8"
+        else:
+            k = "narrow!" if unrepresentable(txt, m) else "narrow"
+        if m is not None and case.get(who + "_wrap"):
+            k += "+W"
+        if rank[k.replace("+W", "")] > rank[best.replace("+W", "")] or \
+                (rank[k.replace("+W", "")] == rank[best.replace("+W", "")] and k.endswith("+W")):
+            best = k
+    return best
+
+
 # byte alphabet covering every lead/continuation class boundary of UTF-8
 BOUNDARY = [0x00, 0x0A, 0x0D, 0x41, 0x7F, 0x80, 0x8F, 0x90, 0x9F, 0xA0, 0xBF, 0xC0, 0xC1, 0xC2, 0xDF, 0xE0,
             0xE1, 0xEC, 0xED, 0xEE, 0xEF, 0xF0, 0xF1, 0xF3, 0xF4, 0xF5, 0xFF]
@@ -124,6 +174,15 @@ class _Decode:
     shard_size = 1500
 
 
+class _Wrap:
+    """pseudo-plugin for the wrapper-validation shards (Common/MirrorStream.render vs io.TextIOWrapper)"""
+    id = "C02"
+    corr_module = "Corr.C02Corr"
+    case_type = "wcase"
+    preds = ("wcorr",)
+    shard_size = 1500
+
+
 class C02(Prop):
     id = "C02"
     corr_module = "Corr.C02Corr"
@@ -135,7 +194,12 @@ class C02(Prop):
             "sequences, boundary code points, overlong/surrogate/out-of-range/truncated/invalid bytes, split at "
             "random cut sets, interleaved with each other and with the exit event at a random position; "
             "hide x out_stream/err_stream override x pty x async x exit code/warn matrix; encodings utf-8 "
-            "(70%), latin-1, ascii.  Non-trivial = some stream has > 1 read, or a multi-byte/invalid byte; "
+            "(70%), latin-1, ascii; the mirror stream objects (given out_stream/err_stream or the sys.stdout/"
+            "sys.stderr stand-ins) advertise .encoding None(no attribute)/utf-8/ascii/latin-1/cp1252 "
+            "independently per stream (30/10/22/19/19 %), 35% of the encoded ones are real io.TextIOWrapper("
+            "BytesIO, errors='backslashreplace') objects whose decoded content is the observation; the "
+            "input_distribution key ends in mirror:<class> (narrow! = a shown stream with a narrow encoding "
+            "received text that encoding cannot represent).  Non-trivial = some stream has > 1 read, or a multi-byte/invalid byte; "
             "distinct by the whole case")
     trusted_base = [
         "Coq 8.16.1 kernel + vm_compute (shard evaluation, refutation witnesses)",
@@ -144,6 +208,8 @@ class C02(Prop):
         "differential execution through harness/runner_common.py ScriptedRunner (this run)",
         "decoder model and reference decoder validated against CPython bytes.decode(enc,'replace') (this run)",
         "harness/runner_common.py (scripted OS primitives), harness/props/c02.py, harness/coqterm.py",
+        "coq/Common/MirrorStream.v: what an io.TextIOWrapper(errors='backslashreplace') in ascii/latin-1/cp1252/"
+        "utf-8 makes of a text (environment, shared by model and spec), validated against the real class (this run)",
         "CPython 3.12 executing VERIF_REPO; Linux pipe semantics for the real-child runs",
     ]
     assumptions = [
@@ -170,6 +236,9 @@ class C02(Prop):
         "time: the model has no clock; that a slow consumer of the mirrored text does not cost captured output "
         "is checked by one scripted case (corpus: slow out_stream) and one real child (36 KB, slow out_stream)",
         "Local.read_proc_stdout/err (os.read, EIO-as-EOF) are exercised only by the real-child runs",
+        "mirror streams: advertised encodings None/utf-8/ascii/latin-1/cp1252 and the backslashreplace handler "
+        "only; a stream whose write() raises (errors='strict' on an unrepresentable character) kills the IO worker "
+        "-- that is C08's ground, not generated here; stream attributes other than .encoding/.errors are not varied",
     ]
 
     # ------------------------------------------------------------------ cases
@@ -203,12 +272,26 @@ class C02(Prop):
         enc_cfg = None
         if enc_from == "kwarg" and rng.random() < 0.3:
             enc_cfg = rng.choice([e for e in ENC if e != enc])      # the keyword must win over the config
-        return {
+        case = {
             "enc_from": enc_from, "enc_cfg": enc_cfg,
             "events": evs, "enc": enc, "hide": rng.choice(list(HIDE)),
             "out_given": rng.random() < 0.3, "err_given": rng.random() < 0.3,
             "pty": pty, "async": rng.random() < 0.15, "warn": rng.random() < 0.5,
         }
+        case.update(self._mirrors(rng))
+        return case
+
+    @staticmethod
+    def _mirrors(rng):
+        """what the two mirror stream objects advertise as .encoding, and whether they are real wrappers"""
+        d = {}
+        for who in ("out", "err"):
+            r = rng.random()
+            m = None if r < 0.30 else "utf-8" if r < 0.40 else "ascii" if r < 0.62 else \
+                "latin-1" if r < 0.81 else "cp1252"
+            d[who + "_menc"] = m
+            d[who + "_wrap"] = m is not None and rng.random() < 0.35
+        return d
 
     def generate(self, rng, tier, n):
         for _ in range(n):
@@ -220,6 +303,9 @@ class C02(Prop):
                  b"\xe2\x82", b"\xed\xa0"]
         seen = set()
         limit = 6 if tier == "thorough" else 4
+        mirrors = [(None, False), ("ascii", False), ("latin-1", False), ("cp1252", False), ("utf-8", False),
+                   ("ascii", True), ("latin-1", True), ("cp1252", True)]
+        count = 0
         for k in range(1, 4):
             for combo in itertools.product(frags, repeat=k):
                 data = b"".join(combo)
@@ -237,8 +323,11 @@ class C02(Prop):
                     evs = [["out", p] for p in parts]
                     pos = 0 if mask % 2 else len(evs)
                     evs.insert(pos, ["exit", 0])
-                    yield {"events": evs, "enc": "utf-8", "hide": "none", "out_given": True,
-                           "err_given": False, "pty": False, "async": False, "warn": False}
+                    m, w = mirrors[count % len(mirrors)]
+                    count += 1
+                    yield {"events": evs, "enc": "utf-8", "hide": "none", "out_given": bool(count % 3),
+                           "err_given": False, "pty": False, "async": False, "warn": False,
+                           "out_menc": m, "out_wrap": w, "err_menc": None, "err_wrap": False}
 
     # ------------------------------------------------------------------ impl
     def run_impl(self, case):
@@ -259,9 +348,11 @@ class C02(Prop):
         cf = "(Some %s)" % ENC[case["enc"]] if ef == "config" else \
             ("(Some %s)" % ENC[case["enc_cfg"]] if case.get("enc_cfg") else "None")
         loc = ENC[DEFAULT_ENC] if DEFAULT_ENC else ENC[case["enc"]]
-        i = "(mkIn (effective_encoding %s %s %s) %s %s %s %s %s %s %s)" % (
+        mo = "(mkMirror %s %s)" % (MENC[case.get("out_menc")], ct.b(bool(case.get("out_menc")) and bool(case.get("out_wrap"))))
+        me = "(mkMirror %s %s)" % (MENC[case.get("err_menc")], ct.b(bool(case.get("err_menc")) and bool(case.get("err_wrap"))))
+        i = "(mkIn (effective_encoding %s %s %s) %s %s %s %s %s %s %s %s %s)" % (
             kw, cf, loc, so, se, HIDE[case["hide"]], ct.b(case["out_given"]), ct.b(case["err_given"]),
-            ct.b(case["pty"]), ct.b(case["async"]))
+            ct.b(case["pty"]), ct.b(case["async"]), mo, me)
         o = "(mkObs %s %s %s %s %s %s)" % (
             text(obs["stdout"]), text(obs["stderr"]), text(obs["out_stream"]), text(obs["err_stream"]),
             texts(obs["out_submits"]), texts(obs["err_submits"]))
@@ -276,8 +367,9 @@ class C02(Prop):
 
     def classify(self, case, obs):
         n = max(len(chunks_before_eof(case, "out")), len(chunks_before_eof(case, "err")))
-        return "%s%s%s reads:%s" % (case["enc"], " pty" if case["pty"] else "",
-                                    " async" if case["async"] else "", "0" if n == 0 else "1" if n == 1 else "2+")
+        return "%s%s%s reads:%s mirror:%s" % (case["enc"], " pty" if case["pty"] else "",
+                                              " async" if case["async"] else "",
+                                              "0" if n == 0 else "1" if n == 1 else "2+", mirror_class(case, obs))
 
     def finding_of(self, case, obs):
         return None          # F-C02 is fixed (incremental decoder): a cut character is a VIOLATION again
@@ -299,8 +391,9 @@ class C02(Prop):
                 for j in range(len(ev[1])):
                     yield dict(case, events=evs[:i] + [[ev[0], ev[1][:j] + ev[1][j + 1:]]] + evs[i + 1:])
         for k, v in (("hide", "none"), ("out_given", True), ("err_given", True), ("pty", False),
-                     ("async", False), ("warn", True)):
-            if case[k] != v:
+                     ("async", False), ("warn", True), ("out_wrap", False), ("err_wrap", False),
+                     ("out_menc", None), ("err_menc", None), ("out_menc", "ascii"), ("err_menc", "ascii")):
+            if case.get(k) != v and not (v == "ascii" and case.get(k) is None):
                 yield dict(case, **{k: v})
         # merge adjacent reads of the same stream
         for i in range(len(evs) - 1):
@@ -311,15 +404,59 @@ class C02(Prop):
     def mutate(self, case, rng):
         for _ in range(40):
             c = self._case(rng, force_enc=case["enc"])
-            for k in ("hide", "out_given", "err_given", "pty", "async"):
+            for k in ("hide", "out_given", "err_given", "pty", "async", "out_menc", "err_menc", "out_wrap", "err_wrap"):
                 if rng.random() < 0.6:
-                    c[k] = case[k]
+                    c[k] = case.get(k)
             yield c
 
     # ------------------------------------------------------------------ extra
     def extra_checks(self, tier, seed):
-        return [self._decoder_validation(tier, seed), self._other_codecs(tier, seed),
-                self._real_children(tier, seed)]
+        return [self._decoder_validation(tier, seed), self._wrapper_validation(tier, seed),
+                self._other_codecs(tier, seed), self._real_children(tier, seed)]
+
+    def _wrapper_validation(self, tier, seed):
+        """Common/MirrorStream.render (what a backslashreplace TextIOWrapper makes of a text) against the real
+        io.TextIOWrapper, written to in random pieces"""
+        import random
+        rng = random.Random(seed + 41)
+        cps = set(range(0, 0x300)) | {0xD7FF, 0xD800, 0xDBFF, 0xDC00, 0xDFFF, 0xE000, 0xFFFD, 0xFFFE, 0xFFFF,
+                                      0x10000, 0x1F600, 0x10FFFF, 0x7FF, 0x800, 0xFFF, 0x1000}
+        for c in (0x20AC, 0x201A, 0x0192, 0x201E, 0x2026, 0x2020, 0x2021, 0x02C6, 0x2030, 0x0160, 0x2039, 0x0152,
+                  0x017D, 0x2018, 0x2019, 0x201C, 0x201D, 0x2022, 0x2013, 0x2014, 0x02DC, 0x2122, 0x0161, 0x203A,
+                  0x0153, 0x017E, 0x0178):
+            cps |= {c - 1, c, c + 1}
+        cps = sorted(cps)
+        items = [(m, chr(c)) for m in NARROW + ("utf-8",) for c in cps]
+        nrand = 300 if tier == "quick" else 5000
+        for _ in range(nrand):
+            k = rng.randint(0, 12)
+            t = "".join(chr(rng.choice(cps)) if rng.random() < 0.7 else chr(rng.randrange(0x110000))
+                        for _ in range(k))
+            items.append((rng.choice(NARROW + ("utf-8",)), t))
+        terms, shown = [], []
+        for m, t in items:
+            w = rc.WrapRecorder(m)
+            i = 0
+            while i < len(t):                       # piecewise, as the read loop forwards it
+                j = i + rng.randint(1, 4)
+                w.write(t[i:j])
+                w.flush()
+                i = j
+            got = w.text()
+            shown.append(got)
+            terms.append("(mkw %s %s %s)" % (MENC[m], text(t), text(got)))
+        res = core.eval_shards(_Wrap, terms, "wrap")
+        fails = []
+        for (m, t), g, r in zip(items, shown, res):
+            if not r["wcorr"]:
+                fails.append({"case": {"encoding": m, "text": [ord(c) for c in t]},
+                              "what": "MirrorStream.render disagrees with io.TextIOWrapper(errors='backslashreplace'): "
+                                      "wrapper content %r" % g})
+        return {"name": "wrapper-validation", "evaluations": len(items), "failures": fails[:5],
+                "note": "Common/MirrorStream.render vs a real io.TextIOWrapper(BytesIO, errors='backslashreplace', "
+                        "write_through=True) written to in pieces of 1-4 characters: every code point below U+0300, "
+                        "the 27 cp1252 specials and their neighbours, surrogate/plane boundaries (%d code points) x "
+                        "ascii/latin-1/cp1252/utf-8, plus %d random texts" % (len(cps), nrand)}
 
     def _other_codecs(self, tier, seed):
         """Encodings outside the Coq model (shift_jis, gbk, BOM-bearing utf-16/32, utf-8-sig): scripted
@@ -362,7 +499,8 @@ class C02(Prop):
                     hide = rng.choice(["none", "both"])
                     case = {"events": evs, "enc": enc, "hide": hide, "out_given": hide == "none",
                             "err_given": hide == "none", "pty": False, "async": False, "warn": True,
-                            "enc_from": rng.choice(["kwarg", "config"])}
+                            "enc_from": rng.choice(["kwarg", "config"]),
+                            "out_menc": rng.choice(list(MENC)), "err_menc": rng.choice(list(MENC))}
                     evals += 1
                     o = rc.run_scripted(case)
                     want = data.decode(enc, "replace")
@@ -431,6 +569,7 @@ class C02(Prop):
         cases.append({"kind": "sjis"})
         cases.append({"kind": "unhidden"})
         cases.append({"kind": "slow-mirror"})
+        cases.append({"kind": "narrow-log"})
         reps = 1 if tier == "quick" else 5
         fails, evals = [], 0
         for c in cases * reps:
@@ -494,6 +633,23 @@ def special_child_case(c):
         if r["stdout"] == data and out.text() == data:
             return None
         return {"case": c, "what": {"payload": len(data), "captured": len(r["stdout"]), "mirrored": len(out.text())}}
+    elif k == "narrow-log":
+        # mirror targets that are real text streams in a narrow encoding with their own error handler, and a
+        # recording object that merely advertises one: each gets the command's text, handled its own way
+        out_text, err_text = "plain\ncaf\u00e9 na\u00efve \u20ac5 \u4e2d\u6587 \U0001F600 done\n", "warn: \u00fcber \u2713\n"
+        cmd = "printf '%s'; printf '%s' >&2" % ("".join("\\%03o" % b for b in out_text.encode()),
+                                                "".join("\\%03o" % b for b in err_text.encode()))
+        bad = {}
+        for enc_o, enc_e in (("ascii", "latin-1"), ("cp1252", "ascii")):
+            out, err = rc.WrapRecorder(enc_o), rc.Recorder(encoding=enc_e, errors="xmlcharrefreplace")
+            r = rc.run_real(cmd, encoding="utf-8", out_stream=out, err_stream=err, in_stream=False)
+            if r["hang"] or r["outcome"] != "Result":
+                return {"case": c, "what": "outcome %s (%s)" % (r["outcome"], r.get("thread_excs"))}
+            want_o = out_text.encode(enc_o, "backslashreplace").decode(enc_o)
+            if (r["stdout"], r["stderr"], out.text(), err.text()) != (out_text, err_text, want_o, err_text):
+                bad[enc_o + "/" + enc_e] = {"stdout": r["stdout"], "stderr": r["stderr"], "out_stream": out.text(),
+                                            "want_out_stream": want_o, "err_stream": err.text()}
+        return {"case": c, "what": bad} if bad else None
     elif k == "unhidden":
         out, err = rc.Recorder(), rc.Recorder()
         r = rc.run_real("cat; echo oops >&2", encoding="utf-8", out_stream=out, err_stream=err, echo_stdin=True,
@@ -515,7 +671,7 @@ def special_child_case(c):
 
 
 def real_child_case(c):
-    if c["kind"] in ("crlf", "utf16", "sjis", "unhidden", "slow-mirror"):
+    if c["kind"] in ("crlf", "utf16", "sjis", "unhidden", "slow-mirror", "narrow-log"):
         return special_child_case(c)
     out, enc = payload(c["kind"], c["n_out"], "o")
     err, _ = payload(c["kind"], c["n_err"], "e")
